@@ -1034,3 +1034,81 @@ pub fn c03_update_stream_codec_full_keeps_queue() {
     std::mem::forget(codec);
     rforget(w);
 }
+
+/// C08 (accept-queue assert): `Streams::next_incoming` does
+/// `assert!(num_remote_reset_streams > 0)` for every popped stream that `is_remote_reset()`.
+/// That is safe only if the counter never falls below the number of un-accepted streams whose
+/// state is a remote reset (invariant N5).  Step: RST_STREAM from the peer on a stream that is
+/// *already closed* for any cause, with or without frames still queued (a queued frame - e.g.
+/// the library's own unflushed RST_STREAM - lets the peer's reset overwrite the closed state).
+pub fn c08_rreset_on_closed_keeps_accept_count() {
+    let mut w = rworld(7, false);
+    let pending_accept: bool = kani::any();
+    let queued: bool = kani::any();
+    let num: usize = kani::any();
+    let max: usize = kani::any();
+    kani::assume(num <= max);
+    counts_h::set_reset_counts(&mut w.counts, 0, 10, num, max);
+    let code: u32 = kani::any();
+    let (r, ind_pre) = {
+        let mut p = w.store.resolve(w.key);
+        let st = st_h::any_state_in(StreamId::from(ID), 6, 11);
+        std::mem::forget(std::mem::replace(&mut p.state, st));
+        p.is_pending_accept = pending_accept;
+        p.is_pending_send = queued;
+        let ind_pre = (pending_accept && p.state.is_remote_reset()) as usize;
+        // N5 on the pre-state (the other un-accepted reset streams are the rest of `num`)
+        kani::assume(num >= ind_pre);
+        (w.recv.recv_reset(frame::Reset::new(StreamId::from(ID), code.into()), &mut p, &mut w.counts), ind_pre)
+    };
+    let (_, nr) = counts_h::get_reset_counts(&w.counts);
+    let p = w.store.resolve(w.key);
+    if r.is_ok() {
+        let ind_post = (pending_accept && p.state.is_remote_reset()) as usize;
+        assert!(nr as u128 + ind_pre as u128 >= num as u128 + ind_post as u128,
+            "C08/N5: an un-accepted stream became remote-reset without being counted - accept() hits assert!(num_remote_reset_streams > 0)");
+        assert!(nr <= max, "C18.rreset: more remembered remote resets than configured");
+        assert!(p.state.is_closed());
+    } else {
+        assert!(pending_accept && num >= max && nr == num);
+    }
+    kani::cover!(r.is_ok() && pending_accept && queued && ind_pre == 0, "overwrites_closed_state");
+    kani::cover!(true, "end");
+    std::mem::forget(r);
+    rforget(w);
+}
+
+/// C19.forget (receive buffer): when the last handle of a stream goes away
+/// (`release_closed_capacity`), the stream's buffered events are cleared - whether or not the
+/// stream still holds in-flight receive credit - and that credit goes back to the connection
+/// exactly once (R1/R2).  `Recv::clear_recv_buffer` itself is a ghost here (its loop drops
+/// `Event` values: HeaderMap / PollMessage drop glue does not finish symbolic execution in
+/// 15 min); the obligation is that it is *called*, once, on every path.
+pub(crate) static mut G_CLEARED: u32 = 0;
+pub(crate) fn stub_clear_recv_buffer_record(_r: &mut Recv, _s: &mut Stream, _t: &mut Option<Waker>, _c: &mut Counts) {
+    unsafe { G_CLEARED += 1 };
+}
+fn release_closed_clears(zero_in_flight: bool) {
+    let mut w = rworld(7, false);
+    let pre = sym_rpre(&mut w);
+    if zero_in_flight {
+        kani::assume(pre.sfl == 0);
+    } else {
+        kani::assume(pre.sfl > 0);
+    }
+    unsafe { G_CLEARED = 0 };
+    {
+        let mut p = w.store.resolve(w.key);
+        p.ref_count = 0;
+        w.recv.release_closed_capacity(&mut p, &mut w.task, &mut w.counts);
+    }
+    let q = rpost(&mut w);
+    assert!(unsafe { G_CLEARED } == 1,
+        "C19: the buffered events of a forgotten stream are not cleared (they stay in the connection's receive buffer for its lifetime)");
+    assert!(q.sfl == 0 && q.infl == pre.others, "R1: in-flight credit of the forgotten stream not returned");
+    assert!(q.ca as i64 + q.infl as i64 == pre.t, "R2: connection credit leaked or invented");
+    kani::cover!(true, "end");
+    rforget(w);
+}
+pub fn c19_release_closed_clears_buffer_no_in_flight() { release_closed_clears(true) }
+pub fn c19_release_closed_clears_buffer_in_flight() { release_closed_clears(false) }
